@@ -20,6 +20,7 @@ import ConjureVerif.Model.Emit
 import ConjureVerif.Model.MacroEmit
 import ConjureVerif.Model.TypePath
 import ConjureVerif.Model.Boxing
+import ConjureVerif.Model.RustType
 /-
 Line-protocol driver.  One operation per input line: `<property> <op> <args…>`; one output line per
 operation.  Imports models only (no Mathlib, no proofs), so it links as a native executable.
@@ -43,6 +44,7 @@ def dispatch (line : String) : String :=
   | "C02" :: rest => Wire.handle rest
   | "C03" :: "typepath" :: rest => TypePath.handle ("typepath" :: rest)
   | "C03" :: "boxing" :: rest => Boxing.handle ("boxing" :: rest)
+  | "C03" :: "rusttype" :: rest => RustType.handle ("rusttype" :: rest)
   | "C03" :: rest => Idents.handle rest
   | "C04" :: "emit" :: rest => Emit.handle Gen.Keywords.escaped ("emit" :: rest)
   | "C04" :: rest => Call.handle rest
